@@ -92,32 +92,10 @@ bool ConfigData::SaveToFile(const path& file_path) {
     return false;
   }
   LOG(INFO) << "saving config file '" << file_path << "'.";
-  // dump tree to a temporary file next to the target, then move it into place:
-  // an interrupted save must not leave a truncated file under the final name.
-  path temp_path(file_path);
-  temp_path += ".tmp";
-  {
-    std::ofstream out(temp_path.c_str());
-    RIME_VERIF_CRASHPOINT("ConfigData::SaveToFile:opened");
-    if (!SaveToStream(out)) {
-      return false;
-    }
-    out.close();
-    if (out.fail()) {
-      LOG(ERROR) << "failed to write config file '" << temp_path << "'.";
-      return false;
-    }
-  }
-  RIME_VERIF_CRASHPOINT("ConfigData::SaveToFile:written");
-  std::error_code ec;
-  std::filesystem::rename(temp_path, file_path, ec);
-  RIME_VERIF_CRASHPOINT("ConfigData::SaveToFile:renamed");
-  if (ec) {
-    LOG(ERROR) << "failed to save config file '" << file_path
-               << "': " << ec.message();
-    return false;
-  }
-  return true;
+  // dump tree
+  std::ofstream out(file_path.c_str());
+  RIME_VERIF_CRASHPOINT("ConfigData::SaveToFile:opened");
+  return SaveToStream(out);
 }
 
 bool ConfigData::IsListItemReference(const string& key) {
